@@ -115,7 +115,12 @@ func (e eventer) listen(s *Session) {
 		case <-s.ctx.Done():
 			s.Close()
 			return
-		case v := <-e:
+		case v, ok := <-e:
+			if !ok {
+				// Closed by Session.shutdown: stop, a closed channel is always ready
+				// and would spin this loop.
+				return
+			}
 			v.process(s.log)
 		}
 	}
